@@ -79,12 +79,12 @@ class Gen:
             node['retry'] = retry
         if will_fail:
             style = rng.random()
-            exc = rng.choice(['E1', 'E1', 'E2', 'EOther', 'E1Sub', 'EFalsy'])
+            exc = rng.choice(['E1', 'E1', 'E2', 'EOther', 'E1Sub', 'EFalsy', 'ERt', 'EKey'])
             if style < 0.45:
                 node['plan']['fail'] = ['ALWAYS', exc]
             else:
                 k = rng.randint(1, 3)
-                node['plan']['fail'] = [rng.choice(['E1', 'E2', 'EOther', 'E1Sub']) for _ in range(k)]
+                node['plan']['fail'] = [rng.choice(['E1', 'E2', 'EOther', 'E1Sub', 'ERt', 'EKey']) for _ in range(k)]
             if rng.random() < 0.6:
                 ins = list(self.p['inputs'])
                 node['plan']['fail_when'] = sorted(rng.sample(ins, rng.randint(1, max(1, len(ins) - 1))))
@@ -96,6 +96,10 @@ class Gen:
         lazy_ok = self.rng.random() < self.p.get('p_share_lazy', 0.15)
         cand_ok = self.rng.random() < self.p.get('p_share_cand', 0.1)
         pool = list(visible)
+        if not in_rec and self.rng.random() < self.p.get('p_global_share', 0.15):
+            # any finished node, also one deep inside another sub-pipeline (a candidate's or a case's private
+            # dependency, a node of a sibling branch)
+            pool += [n for n in self.order if n in self.done and n not in pool]
         if lazy_ok:
             # finished case nodes of switches anywhere below (outside candidates / recurrent subgraphs): e.g.
             # Y(a: Input(C), b: Input(X)) with X(v: SwitchCase(..., C)) - the case is also consumed by a
@@ -109,6 +113,63 @@ class Gen:
                 continue        # a case that is also consumed directly (C09: "reused")
             if 'cand' in f and self.hostile != 'candidate_shared' and not cand_ok:
                 continue        # a candidate that is also consumed directly (D14, repaired as D34): a feature family
+            out.append(nid)
+        return out
+
+    def lazy_fail_shape(self, consumer, visible):
+        """consumer(u: OneOf([A(x: Input(X)), B]), v: SwitchCase(D, [L0: X, L1: Y])): a node X that fails for some
+        inputs is the selected case of a switch and at the same time a dependency of (or itself) the first candidate
+        of a one-of.  Whichever sub-pipeline reaches X first executes it; the other one has to see the outcome."""
+        rng = self.rng
+
+        def plain(flag=None, dep='N0'):
+            n = self.new_node()
+            n['params'].append(['a', ['in', dep]])
+            if flag:
+                self.flags[n['id']].add(flag)
+            self.budget -= 0
+            return n
+        x = plain('case')
+        x['plan']['fail'] = ['ALWAYS', rng.choice(['E1', 'E2', 'EOther', 'ERt'])]
+        ins = list(self.p['inputs'])
+        x['plan']['fail_when'] = sorted(rng.sample(ins, rng.randint(1, len(ins) - 1)))
+        self.finish(x)
+        if rng.random() < 0.5:
+            a = plain('cand', x['id'])
+            self.finish(a)
+            first = a['id']
+        else:
+            self.flags[x['id']].add('cand')
+            first = x['id']
+        b = plain('cand')
+        self.finish(b)
+        d = self.new_node(kind='decider')
+        self.flags[d['id']].add('decider')
+        d['params'].append(['a', ['in', 'N0']])
+        d['plan']['labels'] = ['L0', 'L1']
+        self.finish(d)
+        y = plain('case')
+        self.finish(y)
+        self.sw += 1
+        marks = [['u', ['oneof', [first, b['id']]]], ['v', ['sw', f'sw{self.sw}', d['id'], [['L0', x['id']], ['L1', y['id']]]]]]
+        if rng.random() < 0.5:
+            marks.reverse()
+        consumer['params'].extend(marks)
+        self.slow_hint.append(rng.choice([d['id'], x['id']]))
+        visible.append(d['id'])
+
+    def reusable(self, visible):
+        """Finished nodes that may become a case / candidate of a further construct."""
+        out = []
+        pool = list(visible)
+        if self.rng.random() < self.p.get('p_global_share', 0.15):
+            pool += [n for n in self.order if n in self.done and n not in pool]
+        for nid in pool:
+            if nid == 'N0' or nid not in self.done:
+                continue
+            if self.flags[nid] & {'private_rec', 'dest', 'decider'} or self.nodes[nid].get('start_of') \
+                    or self.nodes[nid].get('kind', 'plain') != 'plain':
+                continue
             out.append(nid)
         return out
 
@@ -127,6 +188,8 @@ class Gen:
             self.decorate(node)
             self.finish(node)
             return nid
+        if not in_rec and depth > 0 and self.budget >= 5 and rng.random() < p.get('p_lazy_fail_shape', 0.03):
+            self.lazy_fail_shape(node, local_visible)
         for i in range(max(1, nparams)):
             pname = 'abcdef'[i]
             mark = self.make_mark(node, local_visible, depth, in_rec, in_cand)
@@ -208,6 +271,14 @@ class Gen:
             labels = [l for l in self.nodes[reuse]['plan']['labels'] if l != 'ZZZ']
         cases = []
         for lab in labels:
+            pool = [] if (in_rec or after_rec is not None) else [x for x in self.reusable(visible)
+                                                                   if x not in [cc for _, cc in cases] and x != decider]
+            if pool and rng.random() < self.p.get('p_reuse_lazy', 0.12):
+                # an existing node (plain, a candidate of a one-of, a case of another switch) is a case as well
+                c = rng.choice(pool)
+                self.flags[c].add('case')
+                cases.append([lab, c])
+                continue
             c = self.make(list(visible), depth - 1, in_rec=in_rec, in_cand=in_cand, role='case')
             cases.append([lab, c])
             visible.append(c)
@@ -259,7 +330,7 @@ class Gen:
             at += 1
         fz = self.new_node()
         fz['params'].append(['a', ['in', 'N0']])
-        fz['plan']['fail'] = ['ALWAYS', rng.choice(['E1', 'E2', 'EOther'])]
+        fz['plan']['fail'] = ['ALWAYS', rng.choice(['E1', 'E2', 'EOther', 'ERt'])]
         self.order.insert(at, fz['id'])
         self.done.add(fz['id'])
         if s_id not in used:
@@ -270,6 +341,37 @@ class Gen:
             visible.append(s_id)
         return s_id
 
+    def deep_chain(self, visible):
+        """candidate C(a: sw(D, [L0: K])), K(a: Input(M)), M(a: Rec(S..T)): a recurrent subgraph behind an ordinary
+        node of a switch case inside a one-of candidate; for some inputs the subgraph is exhausted without default."""
+        rng = self.rng
+        mark = self.make_rec(list(visible), 1, in_cand=True, nested_ok=False)
+        dest = self.nodes[mark[2]]
+        mx = mark[3]
+        dest['plan'].pop('iter_by_attempt', None)
+        dest['plan'].pop('falsy_ad', None)
+        dest['plan']['want_iter'] = {str(v): rng.choice([0, 1, mx + 1, mx + 1]) for v in self.p['inputs']}
+        if rng.random() < 0.7:
+            dest.pop('retry', None)
+        m = self.new_node()
+        m['params'].append(['a', mark])
+        self.finish(m)
+        k = self.new_node()
+        self.flags[k['id']].add('case')
+        k['params'].append(['a', ['in', m['id']]])
+        self.finish(k)
+        d = self.new_node(kind='decider')
+        self.flags[d['id']].add('decider')
+        d['params'].append(['a', ['in', 'N0']])
+        d['plan']['labels'] = ['L0']
+        self.finish(d)
+        self.sw += 1
+        c = self.new_node()
+        self.flags[c['id']].add('cand')
+        c['params'].append(['a', ['sw', f'sw{self.sw}', d['id'], [['L0', k['id']]]]])
+        self.finish(c)
+        return c['id']
+
     def make_oneof(self, visible, depth, in_rec, in_cand):
         rng = self.rng
         n = rng.randint(1, 3)
@@ -278,9 +380,31 @@ class Gen:
             n = max(n, 2)
         cands = []
         outside = []
-        for i in range(n):
-            c = self.make(list(visible), depth - 1, in_rec=in_rec, in_cand=True, role='cand')
+        share_private = rng.random() < self.p.get('p_cand_share_deps', 0.35)
+        i = -1
+        while i + 1 < n:
+            i += 1
+            reuse = [] if in_rec else [x for x in self.reusable(visible) if x not in cands]
+            if reuse and rng.random() < self.p.get('p_reuse_lazy', 0.12):
+                # an existing node (plain, a case of a switch, a candidate of another one-of) is a candidate as well
+                c = rng.choice(reuse)
+                self.flags[c].add('cand')
+                cands.append(c)
+                continue
+            n0 = self.n
+            if not in_rec and i == 0 and self.budget >= 2 and rng.random() < self.p.get('p_deep_chain', 0.04):
+                c = self.deep_chain(visible)
+                n = max(n, 2)
+            else:
+                c = self.make(list(visible), depth - 1, in_rec=in_rec, in_cand=True, role='cand')
             cands.append(c)
+            if share_private and not in_rec:
+                # later candidates (and later parameters of the consumer) may share the upstream nodes of this one
+                for k in range(n0, self.n):
+                    x = f'N{k}'
+                    if x != c and x in self.done and x not in visible and not (self.flags[x] & {'private_rec', 'dest', 'case', 'cand', 'decider'}) \
+                            and not self.nodes[x].get('start_of'):
+                        visible.append(x)
             if contain and i == 0 and self.nodes[c]['kind'] == 'plain' and not self.nodes[c].get('start_of') \
                     and not self.nodes[c]['plan'].get('fail'):
                 outside.append(self.contain_shape(c, visible))
@@ -299,7 +423,7 @@ class Gen:
                 if priv and len(node['params']) >= 2:
                     node = self.nodes[rng.choice(priv)]
             if i < n - 1 and rng.random() < 0.6 and not node['plan'].get('fail'):
-                node['plan']['fail'] = ['ALWAYS', rng.choice(['E1', 'E2', 'EOther', 'EFalsy'])]
+                node['plan']['fail'] = ['ALWAYS', rng.choice(['E1', 'E2', 'EOther', 'EFalsy', 'ERt'])]
                 node.pop('retry', None)
                 if rng.random() < 0.5:
                     ins = list(self.p['inputs'])
